@@ -48,8 +48,14 @@ func (w *Worktree) Commit(msg string, opts *CommitOptions) (plumbing.Hash, error
 		return plumbing.ZeroHash, err
 	}
 
+	// With All the modified and deleted files are staged in a copy of the
+	// index, which is stored only once the commit object exists: a commit
+	// that is refused (nothing to commit, signing error) leaves the index
+	// as it was.
+	var staged *index.Index
 	if opts.All {
-		if err := w.autoAddModifiedAndDeleted(); err != nil {
+		var err error
+		if staged, err = w.autoAddModifiedAndDeleted(); err != nil {
 			return plumbing.ZeroHash, err
 		}
 	}
@@ -67,9 +73,12 @@ func (w *Worktree) Commit(msg string, opts *CommitOptions) (plumbing.Hash, error
 		opts.Parents = headCommit.ParentHashes
 	}
 
-	idx, err := w.r.Storer.Index()
-	if err != nil {
-		return plumbing.ZeroHash, err
+	idx := staged
+	if idx == nil {
+		var err error
+		if idx, err = w.r.Storer.Index(); err != nil {
+			return plumbing.ZeroHash, err
+		}
 	}
 
 	// First handle the case of the first commit in the repository being empty.
@@ -103,6 +112,12 @@ func (w *Worktree) Commit(msg string, opts *CommitOptions) (plumbing.Hash, error
 	commit, err := w.buildCommitObject(msg, opts, treeHash)
 	if err != nil {
 		return plumbing.ZeroHash, err
+	}
+
+	if staged != nil {
+		if err := w.r.Storer.SetIndex(staged); err != nil {
+			return plumbing.ZeroHash, err
+		}
 	}
 
 	return commit, w.updateHEAD(commit)
@@ -202,20 +217,22 @@ func (w *Worktree) CherryPick(commitOpts *CommitOptions, ortStrategyOption OrtMe
 	return nil
 }
 
-func (w *Worktree) autoAddModifiedAndDeleted() error {
+// autoAddModifiedAndDeleted returns the index with the modified and deleted
+// files staged. The index is not stored.
+func (w *Worktree) autoAddModifiedAndDeleted() (*index.Index, error) {
 	cfg, err := w.r.Config()
 	if err != nil {
-		return err
+		return nil, err
 	}
 
 	s, err := w.Status()
 	if err != nil {
-		return err
+		return nil, err
 	}
 
 	idx, err := w.r.Storer.Index()
 	if err != nil {
-		return err
+		return nil, err
 	}
 
 	for path, fs := range s {
@@ -224,11 +241,11 @@ func (w *Worktree) autoAddModifiedAndDeleted() error {
 		}
 
 		if _, _, err := w.doAddFile(cfg, idx, s, path, nil); err != nil {
-			return err
+			return nil, err
 		}
 	}
 
-	return w.r.Storer.SetIndex(idx)
+	return idx, nil
 }
 
 func (w *Worktree) updateHEAD(commit plumbing.Hash) error {
